@@ -117,7 +117,12 @@ func AcceptOrdinalSaleListing(ctx context.Context, vla *ValidateListingArgs, aso
 	for i, u := range asoa.UTXOs {
 		if u.Satoshis > sellerOutput.Satoshis {
 			// Move the UTXO at index i to the beginning
-			asoa.UTXOs = append([]*bt.UTXO{u}, append(asoa.UTXOs[:i], asoa.UTXOs[i+1:]...)...)
+			// (into a new slice: the caller's slice must keep its elements)
+			reordered := make([]*bt.UTXO, 0, len(asoa.UTXOs))
+			reordered = append(reordered, u)
+			reordered = append(reordered, asoa.UTXOs[:i]...)
+			reordered = append(reordered, asoa.UTXOs[i+1:]...)
+			asoa.UTXOs = reordered
 			validUTXOFound = true
 			break
 		}
